@@ -56,6 +56,7 @@ func (id ident) slot() string { return fmt.Sprintf("s%d/%v/p%d", id.secret, id.t
 type entry struct {
 	id    ident
 	valid bool
+	used  bool      // a connection proved the secret and was marked active: the 6 h lifetime applies instead of 10 min
 	born  time.Time // virtual instant at which the slot was first tracked (duplicates do not refresh it)
 }
 
@@ -129,18 +130,31 @@ func (in *inst) Apply(op int) (string, string) {
 			in.regs[id.slot()] = r
 		}
 		e.valid = true
+	case "use":
+		// what the connection handler does once a transport returned the registration: mark it active
+		if r, ok := in.rm.GetRegistrations(net.IP(phantoms[id.phantom]))[in.rm.VerifIdentifier(in.build(id))]; ok {
+			in.rm.MarkActive(r.(*lib.DecoyRegistration))
+			if e, mok := in.model[id.slot()]; mok {
+				e.used = true
+			}
+		}
 	case "expire":
 		vsched.ManualAdvance(11 * time.Minute)
 		in.rm.RemoveOldRegistrations()
-		in.model = map[string]*entry{}
-		in.regs = map[string]*lib.DecoyRegistration{}
+		now := vsched.VNow()
+		for k, e := range in.model {
+			if !e.used || now.Sub(e.born) > 6*time.Hour {
+				delete(in.model, k)
+				delete(in.regs, k)
+			}
+		}
 	case "age6m":
 		// six more minutes, then a sweep: only what is older than the 10 minute unused lifetime goes
 		vsched.ManualAdvance(6 * time.Minute)
 		in.rm.RemoveOldRegistrations()
 		now := vsched.VNow()
 		for k, e := range in.model {
-			if now.Sub(e.born) > 10*time.Minute {
+			if (!e.used && now.Sub(e.born) > 10*time.Minute) || now.Sub(e.born) > 6*time.Hour {
 				delete(in.model, k)
 				delete(in.regs, k)
 			}
@@ -157,7 +171,7 @@ func (in *inst) Apply(op int) (string, string) {
 func (in *inst) Key() string {
 	var ks []string
 	for k, e := range in.model {
-		ks = append(ks, fmt.Sprintf("%s=%s:%v:%dm", k, e.id.name, e.valid, int(vsched.VNow().Sub(e.born)/time.Minute)))
+		ks = append(ks, fmt.Sprintf("%s=%s:%v:%v:%dm", k, e.id.name, e.valid, e.used, int(vsched.VNow().Sub(e.born)/time.Minute)))
 	}
 	sort.Strings(ks)
 	return strings.Join(ks, " ") + "\n" + in.rm.VerifDumpFull() + "\n" + in.rm.VerifDumpAges(vsched.VNow())
@@ -337,14 +351,19 @@ func main() {
 		// probe class failed)
 		hist, _ := vh.LoadReplay(a.Replay)["history"].([]any)
 		var idx []int
+		opsAll := append([]string{}, ops...)
+		for _, id := range ids {
+			opsAll = append(opsAll, "use:"+id.name)
+		}
+		sysR := &vbfs.System{OpNames: opsAll, New: func() vbfs.Instance { return newInst(ids, opsAll) }, OnNewState: probeState}
 		for _, h := range hist {
-			for i, o := range ops {
+			for i, o := range opsAll {
 				if o == h.(string) {
 					idx = append(idx, i)
 				}
 			}
 		}
-		k, w, log := vbfs.Replay(sys, idx)
+		k, w, log := vbfs.Replay(sysR, idx)
 		for _, l := range log {
 			fmt.Fprintln(os.Stderr, l)
 		}
@@ -388,6 +407,51 @@ func main() {
 	for _, v := range res2.Violations {
 		v.History = append(append([]string{}, seedOps...), v.History...)
 		res.Violations = append(res.Violations, v)
+	}
+	// a third search over the two lifetimes: two clients' validated registrations (tracked a minute apart, on the same
+	// and on different phantoms) of which either may have been used by a connection (6 h lifetime) or not (10 min),
+	// under every order of use / ageing / sweep up to the depth; the probe menu runs in every state
+	for vi, seed3 := range [][]string{
+		{"track:s1.min.p1", "validate:s1.min.p1", "track:s2.min.p1", "validate:s2.min.p1"},
+		{"track:s1.min.p2", "validate:s1.min.p2", "track:s2.min.p1", "validate:s2.min.p1"},
+		{"track:s2.pfx1.p2", "validate:s2.pfx1.p2", "track:s1.pfx1.p1", "validate:s1.pfx1.p1"},
+	} {
+		ops3 := append(append([]string{}, ops...), "use:"+seed3[0][6:], "use:"+seed3[2][6:])
+		allowed := map[string]bool{"expire": true, "age6m": true, "use:" + seed3[0][6:]: true, "use:" + seed3[2][6:]: true, seed3[0]: true, seed3[1]: true}
+		var first3 []int
+		n3 := 0
+		for i, o := range ops3 {
+			if allowed[o] {
+				if n3%a.ShardN == (a.ShardI+vi)%a.ShardN {
+					first3 = append(first3, i)
+				}
+				n3++
+			}
+		}
+		sys3 := &vbfs.System{OpNames: ops3, OnNewState: probeState, New: func() vbfs.Instance {
+			in := newInst(ids, ops3)
+			for _, so := range seed3 {
+				for i, o := range ops3 {
+					if o == so {
+						in.Apply(i)
+					}
+				}
+			}
+			return in
+		}, Enabled: func(_ []uint8, op int) bool { return allowed[ops3[op]] }}
+		res3 := vbfs.Run(vbfs.Config{Depth: depth, Deadline: a.Deadline(), FirstOps: first3}, sys3)
+		res.States += res3.States
+		res.Transitions += res3.Transitions
+		if !res3.Exhaustive {
+			res.Exhaustive, res.Cap = false, res3.Cap
+		}
+		for k, n := range res3.ViolCounts {
+			res.ViolCounts[k] += n
+		}
+		for _, v := range res3.Violations {
+			v.History = append(append([]string{}, seed3...), v.History...)
+			res.Violations = append(res.Violations, v)
+		}
 	}
 	o := &vh.Out{Name: fmt.Sprintf("bfs:shard%d/%d", a.ShardI, a.ShardN), Evaluations: res.States * int64(len(menu)*len(phantoms)), Nontrivial: res.States, States: res.States, Transitions: res.Transitions, Traces: res.Transitions,
 		Exhaustive: res.Exhaustive, Cap: res.Cap, WallS: res.WallS, ViolCounts: res.ViolCounts,
